@@ -219,8 +219,9 @@ def rule_words(seg, position, vars=()):
         for ch in w:
             if ch in GLOBCH:
                 return None
-        if '(' in w and w[-1] == ')':
-            return None
+        k = w.find('(')
+        if k > 0 and w[-1] == ')' and len(w) - 1 != k + 1:
+            return None            # archive(member) syntax (ar_name in GNU Make)
     if position == 'target' and words and words[-1][-1] == '&':
         return None                # 'a&:' is the grouped-target separator
     return words
